@@ -305,7 +305,7 @@ def gen_pub_parent(rnd, lzx):
 
 def run(ctx):
     rnd = ctx.rnd
-    lzx = gen.leading_zero_x_scalars()
+    lzx = gen.leading_zero_x_scalars() + gen.leading_zero_y_scalars()
     ctx.extra["lzx_corpus"] = len(lzx)
     inst, pstate = install_probes(ctx)
     try:
